@@ -81,6 +81,78 @@ fn span_guard_sync(env: &Env, node: &PNode) {
     span.complete();
 }
 
+// Result-returning forms: exit chosen by the node id
+fn planned_err() -> std::io::Error {
+    std::io::Error::new(std::io::ErrorKind::Other, "planned error")
+}
+
+fn fails() -> Result<(), std::io::Error> {
+    Err(planned_err())
+}
+
+fn as_dyn_err(e: &std::io::Error) -> &(dyn std::error::Error + 'static) {
+    e
+}
+
+#[emit::span(rt: env.rt, ok_lvl: emit::Level::Debug, mdl: emit::Path::new_raw(node.mdl), "result_ok_lvl_sync")]
+fn span_result_ok_lvl_sync(env: &Env, node: &PNode) -> Result<(), std::io::Error> {
+    body_start(env, node);
+    run_sync(env, &node.items);
+    match node.id % 3 {
+        0 => Ok(()),
+        1 => return Err(planned_err()),
+        _ => {
+            fails()?;
+            Ok(())
+        }
+    }
+}
+
+#[emit::span(rt: env.rt, err_lvl: emit::Level::Warn, mdl: emit::Path::new_raw(node.mdl), "result_err_lvl_sync")]
+fn span_result_err_lvl_sync(env: &Env, node: &PNode) -> Result<(), std::io::Error> {
+    body_start(env, node);
+    run_sync(env, &node.items);
+    match node.id % 3 {
+        0 => Ok(()),
+        1 => return Err(planned_err()),
+        _ => {
+            fails()?;
+            Ok(())
+        }
+    }
+}
+
+#[emit::span(rt: env.rt, err: as_dyn_err, mdl: emit::Path::new_raw(node.mdl), "result_err_sync")]
+fn span_result_err_sync(env: &Env, node: &PNode) -> Result<(), std::io::Error> {
+    body_start(env, node);
+    run_sync(env, &node.items);
+    match node.id % 3 {
+        0 => Ok(()),
+        1 => return Err(planned_err()),
+        _ => {
+            fails()?;
+            Ok(())
+        }
+    }
+}
+
+#[emit::span(rt: env.rt, guard: span, mdl: emit::Path::new_raw(node.mdl), "guard_complete_with_sync")]
+fn span_guard_complete_with_sync(env: &Env, node: &PNode) {
+    body_start(env, node);
+    run_sync(env, &node.items);
+    span.complete_with(emit::span::completion::default(env.rt.emitter(), env.rt.ctxt()));
+}
+
+fn span_manual_complete_with(env: &Env, node: &PNode) {
+    let (mut guard, frame) = emit::new_span!(rt: env.rt, mdl: emit::Path::new_raw(node.mdl), "manual_complete_with");
+    frame.call(move || {
+        guard.start();
+        body_start(env, node);
+        run_sync(env, &node.items);
+        guard.complete_with(emit::span::completion::default(env.rt.emitter(), env.rt.ctxt()));
+    })
+}
+
 // ---------------------------------------------------------------------------------------------
 // span call sites, async
 
@@ -107,6 +179,55 @@ async fn span_guard_async(env: &Env<'_>, node: &PNode) {
     body_start(env, node);
     run_async(env, &node.items).await;
     span.complete();
+}
+
+#[emit::span(rt: env.rt, ok_lvl: emit::Level::Debug, mdl: emit::Path::new_raw(node.mdl), "result_ok_lvl_async")]
+async fn span_result_ok_lvl_async(env: &Env<'_>, node: &PNode) -> Result<(), std::io::Error> {
+    body_start(env, node);
+    run_async(env, &node.items).await;
+    match node.id % 3 {
+        0 => Ok(()),
+        1 => return Err(planned_err()),
+        _ => {
+            fails()?;
+            Ok(())
+        }
+    }
+}
+
+#[emit::span(rt: env.rt, err_lvl: emit::Level::Warn, mdl: emit::Path::new_raw(node.mdl), "result_err_lvl_async")]
+async fn span_result_err_lvl_async(env: &Env<'_>, node: &PNode) -> Result<(), std::io::Error> {
+    body_start(env, node);
+    run_async(env, &node.items).await;
+    match node.id % 3 {
+        0 => Ok(()),
+        1 => return Err(planned_err()),
+        _ => {
+            fails()?;
+            Ok(())
+        }
+    }
+}
+
+#[emit::span(rt: env.rt, err: as_dyn_err, mdl: emit::Path::new_raw(node.mdl), "result_err_async")]
+async fn span_result_err_async(env: &Env<'_>, node: &PNode) -> Result<(), std::io::Error> {
+    body_start(env, node);
+    run_async(env, &node.items).await;
+    match node.id % 3 {
+        0 => Ok(()),
+        1 => return Err(planned_err()),
+        _ => {
+            fails()?;
+            Ok(())
+        }
+    }
+}
+
+#[emit::span(rt: env.rt, guard: span, mdl: emit::Path::new_raw(node.mdl), "guard_complete_with_async")]
+async fn span_guard_complete_with_async(env: &Env<'_>, node: &PNode) {
+    body_start(env, node);
+    run_async(env, &node.items).await;
+    span.complete_with(emit::span::completion::from_fn(|span| emit::emit!(rt: env.rt, evt: span)));
 }
 
 // ---------------------------------------------------------------------------------------------
@@ -223,6 +344,26 @@ fn span_sync(env: &Env, node: &PNode) {
             env.push(L::Begin(node.id));
             span_guard_sync(env, node)
         }
+        Form::ResultOkLvlSync => {
+            env.push(L::Begin(node.id));
+            let _ = span_result_ok_lvl_sync(env, node);
+        }
+        Form::ResultErrLvlSync => {
+            env.push(L::Begin(node.id));
+            let _ = span_result_err_lvl_sync(env, node);
+        }
+        Form::ResultErrSync => {
+            env.push(L::Begin(node.id));
+            let _ = span_result_err_sync(env, node);
+        }
+        Form::GuardCompleteWithSync => {
+            env.push(L::Begin(node.id));
+            span_guard_complete_with_sync(env, node)
+        }
+        Form::ManualCompleteWith => {
+            env.push(L::Begin(node.id));
+            span_manual_complete_with(env, node)
+        }
         Form::HandoffCall => {
             env.push(L::Begin(node.id));
             span_handoff_call(env, node)
@@ -235,7 +376,7 @@ fn span_sync(env: &Env, node: &PNode) {
             env.push(L::Begin(node.id));
             span_handoff_enter_back(env, node)
         }
-        Form::AsyncFn | Form::ManualFuture | Form::GuardAsync | Form::HandoffFuture => block_on(span_async(env, node)),
+        _ => block_on(span_async(env, node)),
     }
 }
 
@@ -257,6 +398,22 @@ fn span_async<'a>(env: &'a Env<'a>, node: &'a PNode) -> BoxFut<'a> {
         Form::HandoffFuture => Box::pin(async move {
             env.push(L::Begin(node.id));
             span_handoff_future(env, node).await
+        }),
+        Form::ResultOkLvlAsync => Box::pin(async move {
+            env.push(L::Begin(node.id));
+            let _ = span_result_ok_lvl_async(env, node).await;
+        }),
+        Form::ResultErrLvlAsync => Box::pin(async move {
+            env.push(L::Begin(node.id));
+            let _ = span_result_err_lvl_async(env, node).await;
+        }),
+        Form::ResultErrAsync => Box::pin(async move {
+            env.push(L::Begin(node.id));
+            let _ = span_result_err_async(env, node).await;
+        }),
+        Form::GuardCompleteWithAsync => Box::pin(async move {
+            env.push(L::Begin(node.id));
+            span_guard_complete_with_async(env, node).await
         }),
         _ => Box::pin(async move { span_sync(env, node) }),
     }
